@@ -196,7 +196,7 @@ Fixpoint sj_key_split (c : cfg) (lf rf : list name) (ps : list expr)
   | [] => Ok ([], [], [])
   | e :: t =>
       obind (match e with
-             | ECall f (a :: b :: _) =>
+             | ECall f [a; b] =>          (* Arguments[0], Arguments[1]: "=" has exactly two *)
                  if name_eqb f "="%string then
                    obind (variables_used c a) (fun va => obind (variables_used c b) (fun vb =>
                      let al := uses_vars_from_schema lf va in let ar := uses_vars_from_schema rf va in
@@ -446,7 +446,22 @@ Definition c04_tie (cs : c04_case) : bool :=
   | _, _ => false
   end.
 (* the plans the real typechecker produces satisfy the hypothesis of the theorems *)
-Definition c04_wf (cs : c04_case) : bool := let '(_, p, _) := cs in wf_planb [] p.
+Fixpoint set_policy0 (p : plan) : plan :=
+  match p with
+  | PDatasource s n al mp _ pr => PDatasource s n al mp 0 pr
+  | PDistinct s x => PDistinct s (set_policy0 x)
+  | PFilter s e x => PFilter s e (set_policy0 x)
+  | PGroupBy s k a g ke t x => PGroupBy s k a g ke t (set_policy0 x)
+  | PStreamJoin s lk rk l r => PStreamJoin s lk rk (set_policy0 l) (set_policy0 r)
+  | PLookupJoin s l r => PLookupJoin s (set_policy0 l) (set_policy0 r)
+  | PMap s es x => PMap s es (set_policy0 x)
+  | PUnnest s f x => PUnnest s f (set_policy0 x)
+  | POst s k d li x => POst s k d li (set_policy0 x)
+  | PTvf _ _ _ => p
+  end.
+(* (the harness also gives the datasources an accepting push-down policy to exercise that rule; the policy the
+   typechecker produced is 0, which is what wf_plan asks for) *)
+Definition c04_wf (cs : c04_case) : bool := let '(_, p, _) := cs in wf_planb [] (set_policy0 p).
 (* what the rules produce is again well-formed (observed on the implementation's output) *)
 Definition c04_wf_out (cs : c04_case) : bool :=
-  let '(_, _, obs) := cs in match obs with ObsOk q _ => wf_planb [] q | ObsPanic => true end.
+  let '(_, _, obs) := cs in match obs with ObsOk q _ => wf_planb [] (set_policy0 q) | ObsPanic => true end.
